@@ -115,6 +115,19 @@ CLAIMED = {
         note="Trusted: TLC; census = sizes of all trait / container / object notifier lists of the pool; failures "
              "injected through one object of a class lacking the observed trait; gc.collect() forced explicitly.",
         design="4/C09"),
+    "C12": dict(
+        technique=TLA + "Observe.tla: an observed property is a permanent registration of its dependency expression; "
+                  "PropValue computes its value from the heap, Relevant decides which mutations concern it; every read of "
+                  "a cached and of an uncached observed property of the real root, the getter runs, and the calls of "
+                  "handlers on the property are recorded along seeded histories and enumerated container cases (incl. "
+                  "pickled / deep-copied pools) and judged by TLC",
+        text="Every recorded read must equal the value TLC computes from the projected heap (no stale read); the cached "
+             "getter runs at most once and not at all without a relevant change since the previous read (TLC decides "
+             "relevance of every intermediate mutation, probes included); handlers on the property are called exactly "
+             "when a relevant change alters the value; ~125k steps in the quick tier.",
+        note="Trusted: TLC; two properties (kids.items.value cached via subclass override, child.value uncached) on "
+             "the root; clone_traits only through deepcopy. Known finding F8 applies (cycles).",
+        design="4/C12"),
     "C13": dict(
         technique=TLA + "Names.tla defines Governing (instance trait > class trait > longest wildcard > class default) "
                   "and the access policies; TLC checks the policy invariants on all histories to the bound; every history "
